@@ -195,7 +195,10 @@ def to_xml(spec):
     if l.get('quat') is not None:
       a.append('quat="%s"' % _fmt(l['quat']))
     o.append('%s<body %s>' % (ind, ' '.join(a)))
-    if l['kind'] == 'F':
+    if l['kind'] == 'F' and l.get('free_damping'):
+      o.append('%s <joint name="j%d_0" type="free" damping="%r"/>' % (
+          ind, i, l['free_damping']))
+    elif l['kind'] == 'F':
       o.append('%s <freejoint name="j%d_0"/>' % (ind, i))
     else:
       for j, c in enumerate(l['kind']):
